@@ -155,25 +155,47 @@ def run(tier, seed):
     # ---- O-C07b: fault injection on the real binary -----------------------------------------------------
     faults = []
 
-    def add(name, text, bound_s, cleanups, sig=None, args=None, points=None, expect_fail=None, allow_left=False):
+    SIGNAME = {signal.SIGINT: "int", signal.SIGTERM: "term", signal.SIGHUP: "hup"}
+
+    def add(name, text, bound_s, cleanups, sig=None, args=None, points=None, expect_fail=None, allow_left=False, body_err=None):
+        """cleanups: 2 = every cleanup succeeds both times, 1 = the initial cleanups fail, None = not judged.
+        body_err: does the play proper end with an error other than a cancellation (None = depends on the schedule).
+        The expected number of cleanup runs and the expected result come from the life-cycle model (Model/Life.lean,
+        theorems init_cleanup_each_once, final_cleanup_each_once, exit_status)."""
+        ncast = text.count(" plays ")
+        want_cl, want_fail = None, expect_fail
+        if cleanups is not None:
+            bits_i = ("1" if cleanups == 2 else "0") * ncast
+            ans = model.ask("C07 life %s %s %d %s" % (bits_i, "1" * ncast, 1 if body_err else 0, SIGNAME.get(sig[1], "none") if sig else "none"))
+            m = dict(kv.split("=") for kv in (ans or "").split())
+            if "init" not in m:
+                kdis.append({"life-model": ans})
+            else:
+                want_cl = int(m["init"]) + int(m["final"])
+                if body_err is not None or m["fail"] == "true":
+                    # (with body_err unknown the model's `fail=true` still holds: it was computed with body_err = false)
+                    mf = m["fail"] == "true"
+                    if expect_fail is not None and expect_fail != mf:
+                        kdis.append({"life-model": ans, "scenario": name, "expected by the scenario": expect_fail})
+                    want_fail = mf
         faults.append({"name": name, "play": e2e.Play(text, args=args, timeout=bound_s + 12, sigspec=sig, points=points, keep=True),
-                       "bound": bound_s, "cleanups": cleanups, "expect_fail": expect_fail, "allow_left": allow_left})
+                       "bound": bound_s, "cleanups": want_cl, "expect_fail": want_fail, "allow_left": allow_left})
 
     add("SIGINT during a long action", e2e_play(), 8, 2, sig=(1.0, signal.SIGINT), expect_fail=True)
     add("SIGTERM during a long action", e2e_play(), 8, 2, sig=(1.0, signal.SIGTERM))
     # cleanups are not interruptible: after a signal the final cleanup still runs to completion
     add("SIGTERM during a long action, cleanup takes a second", e2e_play(cleanup="sleep 1; " + CLEAN), 12, 2, sig=(1.5, signal.SIGTERM))
     add("SIGINT during a long action, cleanup takes a second", e2e_play(cleanup="sleep 1; " + CLEAN), 12, 2, sig=(1.5, signal.SIGINT), expect_fail=True)
-    add("a concurrent line fails while a long action runs", e2e_play(second_line="bad"), 8, 2, expect_fail=True)
-    add("audit foul with -S during a long action", e2e_play(audience="audience\n  bob audits throughout\n  bob expects always: mood == 'clear'\nend\n"), 8, 2, args=["-S"], expect_fail=True)
-    add("evaluation error", e2e_play(scene_x="quick", audience="audience\n  bob audits throughout\n  bob expects always: t < 'a'\nend\n"), 8, 2, expect_fail=True)
+    add("a concurrent line fails while a long action runs", e2e_play(second_line="bad"), 8, 2, expect_fail=True, body_err=True)
+    add("audit foul with -S during a long action", e2e_play(audience="audience\n  bob audits throughout\n  bob expects always: mood == 'clear'\nend\n"), 8, 2, args=["-S"], expect_fail=True, body_err=True)
+    add("evaluation error", e2e_play(scene_x="quick", audience="audience\n  bob audits throughout\n  bob expects always: t < 'a'\nend\n"), 8, 2, expect_fail=True, body_err=True)
     for _ in range(3 if tier == "quick" else 12):
         add("spotlight ignoring SIGHUP", e2e_play(scene_x="quick", spot="trap '' HUP; sleep 100"), 8, 2, expect_fail=None)
     add("spotlight with children", e2e_play(scene_x="quick", spot="sleep 100 & sleep 100 & wait"), 8, 2)
     add("initial cleanup fails", e2e_play(scene_x="quick", cleanup=CLEAN + "; exit 1"), 8, 1, expect_fail=True)
-    add("nothing goes wrong", e2e_play(scene_x="quick"), 8, 2, expect_fail=False)
+    add("nothing goes wrong", e2e_play(scene_x="quick"), 8, 2, expect_fail=False, body_err=False)
     add("action ignoring SIGHUP, SIGINT", e2e_play(scene_x="stub", extra_actions="  :stub trap '' HUP; sleep 20"), 10, 2, sig=(1.0, signal.SIGINT), expect_fail=True)
-    add("a completed action left a process in the background", e2e_play(scene_x="bg", extra_actions="  :bg (setsid sleep 7 >/dev/null 2>&1 &) ; true"), 8, 2, expect_fail=False, allow_left=True)
+    add("a completed action left a process in the background", e2e_play(scene_x="bg", extra_actions="  :bg (setsid sleep 7 >/dev/null 2>&1 &) ; true"), 8, 2, expect_fail=False, allow_left=True, body_err=False)
     add("SIGINT while the conductor is between shutdown stages", e2e_play(scene_x="quick"), 8, 2, sig=(0.45, signal.SIGINT), points="conduct.stage2=sleep:600ms")
     add("SIGTERM while the collector is still draining", e2e_play(scene_x="quick"), 8, 2, sig=(0.5, signal.SIGTERM), points="collector.loop=sleep:150ms")
     # a foul that is only detected after the prompter has finished (shutdown stage 2), while a spotlight
@@ -210,8 +232,8 @@ def run(tier, seed):
         except OSError:
             pass
         ncast = f["play"].text.count(" plays ")
-        if f["cleanups"] is not None and cl != f["cleanups"] * ncast:
-            problems.append("cleanup ran %d times for %d actors, expected %d per actor" % (cl, ncast, f["cleanups"]))
+        if f["cleanups"] is not None and cl != f["cleanups"]:
+            problems.append("cleanup commands ran %d times for %d actors, the life-cycle model prescribes %d" % (cl, ncast, f["cleanups"]))
         left = leftover(os.path.basename(r["cwd"]))
         if left and not f["allow_left"]:
             problems.append("processes left running: %s" % left[:4])
